@@ -12,6 +12,8 @@
              partition still has a previous owner holding data
      copies  at a stable point every present key is stored exactly once as a primary copy, keeps
              its backup copies (where it ever had them), and a deleted key has no copy anywhere
+     evict   the background eviction routine, run on every member while expired keys sit on a previous
+             owner, returns (it must not wait for itself)
      forget  the key is no longer asserted (written with fewer than R members present, or its
              last copy-holder set fell below R before a leave) *)
 EXTENDS Integers, Sequences, FiniteSets, TLC, Json
@@ -35,7 +37,10 @@ Op == /\ Ev.t = "op" /\ UNCHANGED seq
       /\ LET new == IF Ev.op = "del" THEN "nil" ELSE Ev.v IN
          IF Ev.ret = "ok" THEN adm' = Set(adm, Ev.k, {new}) /\ Ok
          ELSE IF Ev.indeterminate THEN adm' = Set(adm, Ev.k, IF Adm(Ev.k) = Star THEN Star ELSE Adm(Ev.k) \cup {new}) /\ Ok
-         ELSE adm' = adm /\ Fail(Ev.op \o " failed in a healthy, stable cluster: " \o Ev.ret)
+         ELSE adm' = adm /\ Fail(Ev.op \o " failed in a stable cluster: " \o Ev.ret)
+\* the background eviction routine was run on every member (also on previous owners): it must return
+Evict == /\ Ev.t = "evict" /\ UNCHANGED <<seq, adm>>
+         /\ IF Ev.ret # "ok" THEN Fail("the eviction routine did not return on member " \o ToString(Ev.m) \o " (" \o Ev.phase \o ")") ELSE Ok
 Forget == Ev.t = "forget" /\ adm' = Set(adm, Ev.k, Star) /\ UNCHANGED seq /\ Ok
 Read == /\ Ev.t = "read" /\ UNCHANGED <<seq, adm>>
         /\ IF Ev.ret \notin {"val", "notfound"} THEN Fail("read of " \o Ev.k \o " failed: " \o Ev.ret \o " (" \o Ev.phase \o ")")
@@ -50,6 +55,6 @@ Copies == /\ Ev.t = "copies" /\ UNCHANGED <<seq, adm>>
              ELSE IF Ev.primaries # 1 THEN Fail("a live key is not stored exactly once as a primary copy (" \o Ev.phase \o ")")
              ELSE IF Ev.assertb /\ Ev.backups # Ev.wantb THEN Fail("a live key lost a backup copy (" \o Ev.phase \o ")")
              ELSE Ok
-Next == i <= Len(Trace) /\ i' = i + 1 /\ (Reset \/ Note \/ Op \/ Forget \/ Read \/ Copies)
+Next == i <= Len(Trace) /\ i' = i + 1 /\ (Reset \/ Note \/ Op \/ Evict \/ Forget \/ Read \/ Copies)
 Spec == i = 1 /\ err = "" /\ seq = 0 /\ adm = <<>> /\ [][Next]_vars
 =============================================================================
